@@ -725,7 +725,7 @@ func systematicSpecs() []sysSpec {
 					}
 				}
 				if p == "create-adjust" && k.removable && k.keyed {
-					pats = append(pats, "decoy-removal-then-set", "decoy-after-removal", "set-then-removed", "remove-and-set-other")
+					pats = append(pats, "decoy-removal-then-set", "decoy-after-removal", "set-then-removed", "remove-and-set-other", "both-remove", "both-remove-and-set")
 				}
 				if p == "create-adjust" && k.removable && d.b-d.a >= 2 {
 					pats = append(pats, "reset-then-collide")
@@ -937,6 +937,13 @@ func (g *mgen) genSystematic(id string, s sysSpec) *MCase {
 			other = kd.keys[1]
 		}
 		g.adjSet(c.Resp[s.B].Adjust, s.Kind, other, false)
+	case "both-remove":
+		// two plugins remove the same key (which the original may hold): removals never conflict
+		put(s.A, true, false)
+		put(s.B, true, false)
+	case "both-remove-and-set":
+		put(s.A, true, true)
+		put(s.B, true, true)
 	case "set-then-removed":
 		// A sets key (the original may hold it, too), B removes it and nobody sets it again: it is gone
 		put(s.A, false, true)
